@@ -8,6 +8,7 @@ P3  every failing operation raises, with the right reason, on every path through
 P4  the reported location is the failing node's own meta
 P5  all six fields of the record are accumulated, merged, kept alive, renumbered and emitted in order
 P6  every decoder parses the panic record before touching payload bits
+P8  cross-reference: every operand and every callee body is lowered on every path (C14-E16), else a reachable failure is not recorded
 P7  cross-reference: every operand is evaluated once (C14-E11 parser sugar, C14-E12 lowering), else a failure is reported that the source never reaches
 """
 from .. import hir, mir, protocol
@@ -1130,5 +1131,18 @@ def rule_p7(ctx):
     return res
 
 
+def rule_p8(ctx):
+    """Cross-reference: a failing operation is only recorded if the code that contains it is lowered: every operand and every callee
+    body must be lowered on every path through the node's arm (C14-E16), else a panic the source reaches is dropped."""
+    from . import C14
+    res = RuleResult("P8", "every operand and every callee body is lowered on every path, so no reachable failing operation goes unrecorded (cross-reference to C14-E16)")
+    sub = C14.rule_e16(ctx)
+    for x in sub.findings:
+        res.bad(Finding("P8", x.fn, x.site, x.message, x.span))
+    if not sub.findings:
+        res.ok({"verdict": "C14-E16 holds"})
+    return res
+
+
 def run(ctx):
-    return ctx.run_rules([rule_p1, rule_p2, rule_p3, rule_p4, rule_p5, rule_p6, rule_p7])
+    return ctx.run_rules([rule_p1, rule_p2, rule_p3, rule_p4, rule_p5, rule_p6, rule_p7, rule_p8])
